@@ -1154,16 +1154,15 @@ impl DesignRoot {
                 let std_logic_arena = &data.result().arena;
                 if let AnyDesignUnit::Primary(primary) = data.deref() {
                     if let Some(ent) = primary.ent_id() {
-                        let AnyEntKind::Design(Design::Package(_, ref region)) =
+                        // The unit may be something else than a package when it is user provided
+                        if let AnyEntKind::Design(Design::Package(_, ref region)) =
                             std_logic_arena.get(ent).kind()
-                        else {
-                            unreachable!()
-                        };
-
-                        if let Some(NamedEntities::Single(ent)) = region.lookup_immediate(
-                            &Designator::Identifier(self.symbol_utf8("std_ulogic")),
-                        ) {
-                            self.std_ulogic = Some(ent.id());
+                        {
+                            if let Some(NamedEntities::Single(ent)) = region.lookup_immediate(
+                                &Designator::Identifier(self.symbol_utf8("std_ulogic")),
+                            ) {
+                                self.std_ulogic = Some(ent.id());
+                            }
                         }
 
                         self.arenas.link(&data.result().arena);
